@@ -7,6 +7,7 @@ import (
 	"sort"
 	"strings"
 	"sync"
+	"time"
 
 	"github.com/fiorix/go-diameter/v4/diam"
 	"github.com/fiorix/go-diameter/v4/diam/datatype"
@@ -19,30 +20,30 @@ import (
 // half of C16.
 
 type smaItem struct {
-	kind   string // "cer", "dwr", "app-req", "app-ans", "base-req", "cea"
-	spec   cerSpec
-	msg    RefMsg
-	bytes  []byte
+	kind      string // "cer", "dwr", "app-req", "app-ans", "base-req", "cea"
+	spec      cerSpec
+	msg       RefMsg
+	bytes     []byte
 	failWrite string // arm this write fault before the item is processed ("", "perm", "temp", "plain")
 	failAfter int
-	dwrOK  bool
+	dwrOK     bool
 }
 
 type smaConn struct {
-	name   string
-	sc     *SimConn
-	items  []*smaItem
-	next   int
+	name  string
+	sc    *SimConn
+	items []*smaItem
+	next  int
 	// model
-	hs      bool
-	closed  bool
+	hs                  bool
+	closed              bool
 	peerHost, peerRealm string
-	shared  []uint32
-	outPos  int // parsed outputs consumed so far
-	outputs []RefMsg
-	recv    []byte
-	cutPos  int
-	appSeq  int
+	shared              []uint32
+	outPos              int // parsed outputs consumed so far
+	outputs             []RefMsg
+	recv                []byte
+	cutPos              int
+	appSeq              int
 }
 
 type smaEnter struct {
@@ -53,22 +54,22 @@ type smaEnter struct {
 }
 
 type smaWorld struct {
-	e        *Env
-	prop     string
-	settings *sm.Settings
-	mach     *sm.StateMachine
-	lis      *SimListener
-	conns    []*smaConn
-	mu       sync.Mutex
-	enters   []smaEnter
-	checked  int
-	regs     refRegs
-	impostor int
-	reports  int
-	cfgAddrs []string
+	e           *Env
+	prop        string
+	settings    *sm.Settings
+	mach        *sm.StateMachine
+	lis         *SimListener
+	conns       []*smaConn
+	mu          sync.Mutex
+	enters      []smaEnter
+	checked     int
+	regs        refRegs
+	impostor    int
+	reports     int
+	cfgAddrs    []string
 	keptReports []*retained
-	hsc      <-chan diam.Conn
-	stallRun bool // one CEA write of this run may stall while the other connection goes on
+	hsc         <-chan diam.Conn
+	stallRun    bool // one CEA write of this run may stall while the other connection goes on
 }
 
 var smaHostname = "srv.dsim.example"
@@ -200,6 +201,10 @@ func newSmaWorld(e *Env, prop string) *smaWorld {
 		w.drainReports()
 	}
 	srv := &diam.Server{Handler: w.mach}
+	if t.Chance(1, 3) {
+		srv.WriteTimeout = time.Second // (no fake time passes in this world: it never expires)
+		e.Probe("server-write-timeout-set")
+	}
 	go srv.Serve(w.lis)
 	return w
 }
@@ -390,11 +395,14 @@ func (w *smaWorld) genConn(i int, nItems int) *smaConn {
 			usedDWR[[2]uint32{m.HbH, m.E2E}] = true
 			m.AVPs = identAVPs(peerHost, "example", it.dwrOK || t.Chance(1, 2), it.dwrOK)
 			if t.Chance(1, 3) {
-				m.AVPs = append(m.AVPs, RefAVP{Code: avpOriginState, Flags: 0x40, Data: u32(5)})
+				m.AVPs = append(m.AVPs, RefAVP{Code: avpOriginState, Flags: 0x40, Data: u32([]uint32{5, 0, 0xffffffff}[t.Draw(3)])})
 			}
 			it.msg = m
 			if t.Chance(1, 6) {
 				it.failWrite = []string{"perm", "temp", "plain"}[t.Draw(3)]
+				it.failAfter = t.Range(0, 40)
+			} else if w.stallRun && t.Chance(1, 3) {
+				it.failWrite = "stall" // the peer stops reading: the DWA write blocks for a while
 				it.failAfter = t.Range(0, 40)
 			}
 		case "app-req", "app-ans":
